@@ -39,11 +39,18 @@ func VerifH_KVMetadataTotal() {
 func VerifH_TxHeaderTotal() {
 	n := verifrt.Param("n")
 	b := verifrt.Bytes("b", n)
-	if n >= 52 {
-		// stated bound: the embedded metadata block is at most M bytes (longer metadata
-		// buffers are the subject of VerifH_TxMetadataTotal)
+	if n >= 55 {
 		mdLen := int(b[50])<<8 | int(b[51])
-		verifrt.Assume(mdLen <= verifrt.Param("M"))
+		if verifrt.Param("mode") == 0 {
+			// regime 0: arbitrary metadata content, block of at most M bytes (longer metadata
+			// buffers are the subject of VerifH_TxMetadataTotal)
+			verifrt.Assume(mdLen <= verifrt.Param("M"))
+		} else {
+			// regime 1: a metadata block of ANY declared length whose content is one extra
+			// attribute spanning the whole block (keeps the attribute parser on one path)
+			verifrt.Assume(mdLen >= 3)
+			verifrt.Assume(b[52] == 1 && int(b[53])<<8|int(b[54]) == mdLen-3)
+		}
 	}
 	hdr := &TxHeader{}
 	err := hdr.ReadFrom(b)
